@@ -489,9 +489,13 @@ static void _client_query_status_reply_nointerp(Client * c, bool error)
 
     itr = arglist_iterator_create(c->cmd->arglist);
     while ((arg = arglist_next(itr))) {
-        if (arg->val)
+        if (arg->val) {
+            /* the value is text captured from the device: a CR or LF in it
+             * would end the protocol line early, so stop there (as the 309
+             * path in _process_setresult does) */
+            arg->val[strcspn(arg->val, "\r\n")] = '\0';
             _client_printf(c, CP_INFO_XSTATUS, arg->node, arg->val);
-        else
+        } else
             hostlist_push(hl, arg->node);
     }
     arglist_iterator_destroy(itr);
